@@ -112,6 +112,15 @@ def spell_vector(a, k):
         else:
             out += [("root:k-sum", ("bin", "-", c(k), sm)), ("root:k-sum(rev)", ("bin", "-", c(k), ("sum", ("slice", V, None, None, -1)))),
                     ("root:-sum+k", ("bin", "+", ("un", "neg", sm), c(k)))]
+    # vector nodes over expression vectors that carry constants, BARE (no additive wrapper): c @ (v+1) has the
+    # constant sum(a); (2v - 2) @ (a/2) has the constant -sum(a)
+    if k == sum(a):
+        vp1 = ("vbin", "+", V, c(1))
+        out += [("bare-c@(v+1)", ("mm", arr, vp1)), ("bare-LC(v+1)", ("LC", arr, vp1)), ("bare-(v+1)@c", ("mm", vp1, arr)),
+                ("bare-c@(1+v)", ("mm", arr, ("rvbin", "+", c(1), V)))]
+    if k == -sum(a):
+        out += [("bare-(2v-2)@(a/2)", ("mm", ("vbin", "-", ("vbin", "*", V, c(2)), c(2)), half)),
+                ("bare-LC(a/2,2v-2)", ("LC", half, ("vbin", "-", ("vbin", "*", V, c(2)), c(2))))]
     if k == 0:     # bare roots: the single-node fast paths of the extractor
         out += [
             ("bare-c@v", ("mm", arr, V)), ("bare-LC", ("LC", arr, V)),
